@@ -66,8 +66,12 @@ class Client:
         if sock is None:
             sock = socket.socket(socket.AF_INET, socket.SOCK_DGRAM)
             sock.bind((NET.HOST, 0))
+        try:        # an observer must not lose what the server sent: room for a window of small datagrams
+            sock.setsockopt(socket.SOL_SOCKET, socket.SO_RCVBUF, 4 << 20)
+        except OSError:
+            pass
         self.sock = sock            # a given socket = an endpoint that had a transfer before
-        self.out_from = len(server.output())   # only what the server reports from now on is about this transfer
+        self.out_from = server.mark()   # only what the server reports from now on is about this transfer
         self.addr = self.sock.getsockname()
         self.peer = (NET.HOST, server.port)
         self.events = []
@@ -320,6 +324,9 @@ class Upload(Client):
                 sz = "full" if size == self.blk else ("empty" if size == 0 else "short")
                 self.log(e="in", k="data", n=i % M, id=i, sz=sz, dt=0)
                 self.sock.sendto(NET.data(i % M, self.block(i)), self.peer)
+                self.burst = getattr(self, "burst", 0) + 1
+                if self.burst % 32 == 0:
+                    time.sleep(0.001)       # a long window must not overrun the server's socket buffer
             elif s[0] == "err":
                 self.log(e="in", k="err", n=0, dt=0)
                 self.sock.sendto(NET.error(0, b"stop"), self.peer)
@@ -375,15 +382,13 @@ def server_outcomes(server, clients, wait=1.0):
     deadline = time.time() + wait
     need = [c for c in clients if c.started]
     while time.time() < deadline:
-        out = server.output()
         if all(any(l.startswith(("Sent ", "Received ", "Error ")) and l.rstrip().endswith("%s:%d" % c.addr)
-                   for l in out[c.out_from:].splitlines()) for c in need):
+                   for l in server.output_since(c.out_from).splitlines()) for c in need):
             break
         time.sleep(0.05)
-    out_all = server.output()
     for c in need:
         tag = "%s:%d" % c.addr
-        out = out_all[c.out_from:]
+        out = server.output_since(c.out_from)
         lines = [l for l in out.splitlines() if l.rstrip().endswith(tag) and (l.startswith("Sent ") or l.startswith("Received ") or l.startswith("Error "))]
         if len(lines) == 1:
             ok = not lines[0].startswith("Error ")
